@@ -403,12 +403,22 @@ func runC24(c *Ctx) error {
 		var toks, outs []string
 		nsteps := 4 + c.Intn(16)
 		baseH := 10 + c.Intn(3)
+		nearGenesis := c.Chance(1, 4) // whole history at heights 0..4: around the cleanup guard
 		for st := 0; st < nsteps; st++ {
 			h := baseH + c.Intn(7)
 			if c.Chance(1, 10) {
 				h = 1 + c.Intn(3) // very low heights: below the cleanup guard
 			}
 			r := c.Intn(2)
+			if nearGenesis {
+				h = c.Intn(5)
+				if st < 3 {
+					h = c.Intn(3)
+				}
+			}
+			if h == 0 {
+				r = 0 // the genesis point has round 0 only
+			}
 			point := base.NewPoint(base.Height(h), base.Round(uint64(r)))
 			switch k := c.Intn(20); {
 			case k < 6: // SetBallot
